@@ -434,6 +434,8 @@ def r30(ctx: Ctx) -> RuleReport:
             raise AnalysisError(f'{fi.fq}: no `var, branches = node` unpacking')
         v_var, v_br = unpack
         loops = [n for n in walk_local(fi.node) if isinstance(n, ast.For) and norm(n.iter) == v_br]
+        if not loops and rewrites == 'target' and _r30_comprehension_form(ctx, rep, fi, v_var, v_br):
+            continue
         if len(loops) != 1:
             rep.undecided(f'{fi.fq}: one loop over all branches of the node', fi.loc(), f'{len(loops)} loops over {v_br}')
             continue
@@ -598,6 +600,92 @@ def r30(ctx: Ctx) -> RuleReport:
                 good = first == v_var if rewrites == 'role' else (first.endswith(f'[{v_var}]'))
             rep.add(f'{fi.fq}: returns (variable, output branches)', fi.loc(r), 'ok' if good else 'undecided', norm(v))
     return rep
+
+
+def _r30_comprehension_form(ctx: Ctx, rep: RuleReport, fi: FuncInfo, v_var: str, v_br: str) -> bool:
+    """_map_vars written as one comprehension over the branches, the atom rewrite in a helper.  True if recognised (instances added)."""
+    from ..resolve import facts_ex
+    comps = [n for n in walk_local(fi.node) if isinstance(n, ast.ListComp) and len(n.generators) == 1 and norm(n.generators[0].iter) == v_br]
+    if len(comps) != 1:
+        return False
+    comp = comps[0]
+    g = comp.generators[0]
+    if not (isinstance(g.target, ast.Tuple) and len(g.target.elts) == 2 and isinstance(comp.elt, ast.Tuple) and len(comp.elt.elts) == 2):
+        return False
+    l_role, l_tgt = norm(g.target.elts[0]), norm(g.target.elts[1])
+    rep.ok(f'{fi.fq}: one loop over all branches of the node', fi.loc(comp), 'a comprehension over the branch list')
+    rep.add(f'{fi.fq}: every input branch yields an output branch', fi.loc(comp), 'violation' if g.ifs else 'ok',
+            f'the comprehension filters branches with {[norm(c) for c in g.ifs]}' if g.ifs else '')
+    rep.ok(f'{fi.fq}: at most one output branch per input branch', fi.loc(comp))
+    rep.ok(f'{fi.fq}: no break/continue/return inside the loop', fi.loc(comp))
+    o_role, o_tgt = comp.elt.elts
+    rep.add(f'{fi.fq}: roles are passed through unchanged', fi.loc(comp), 'ok' if norm(o_role) == l_role else 'undecided', norm(o_role))
+    if not isinstance(o_tgt, ast.IfExp):
+        rep.undecided(f'{fi.fq}: target slot is the (possibly rewritten) target', fi.loc(comp), norm(o_tgt)[:60])
+        return True
+    atomic_arm, nested_arm = (o_tgt.body, o_tgt.orelse) if norm(o_tgt.test) == f'is_atomic({l_tgt})' else (
+        (o_tgt.orelse, o_tgt.body) if norm(o_tgt.test) == f'not is_atomic({l_tgt})' else (None, None))
+    if atomic_arm is None:
+        rep.undecided(f'{fi.fq}: recursion only into nested nodes', fi.loc(comp), norm(o_tgt.test))
+        return True
+    rec_ok = isinstance(nested_arm, ast.Call) and norm(nested_arm.func) == fi.name and nested_arm.args and norm(nested_arm.args[0]) == l_tgt
+    rep.add(f'{fi.fq}: recursion only into nested nodes', fi.loc(comp), 'ok' if rec_ok else 'undecided', norm(nested_arm)[:50])
+    if isinstance(atomic_arm, ast.Name) and atomic_arm.id == l_tgt:
+        rep.ok(f'{fi.fq}: target slot is the (possibly rewritten) target', fi.loc(comp))
+    elif isinstance(atomic_arm, ast.Call):
+        hs = [t.func for t in ctx.cg.resolve_call(atomic_arm, fi) if t.kind == 'func']
+        args = [norm(a) for a in atomic_arm.args]
+        if len(hs) != 1 or l_role not in args or l_tgt not in args:
+            rep.undecided(f'{fi.fq}: target slot is the (possibly rewritten) target', fi.loc(comp), norm(atomic_arm)[:60])
+            return True
+        h = hs[0]
+        p_role, p_atom = h.positional[args.index(l_role)], h.positional[args.index(l_tgt)]
+        unp = None
+        for m in walk_local(h.node):
+            if isinstance(m, ast.Assign) and isinstance(m.targets[0], ast.Tuple) and len(m.targets[0].elts) == 3 and isinstance(m.value, ast.Call) \
+                    and isinstance(m.value.func, ast.Attribute) and m.value.func.attr == 'partition' and norm(m.value.func.value) == p_atom \
+                    and try_fold(m.value.args[0]) == (True, '~'):
+                unp = [norm(e) for e in m.targets[0].elts]
+        for r in [n for n in walk_local(h.node) if isinstance(n, ast.Return) and n.value is not None]:
+            if norm(r.value) == p_atom:
+                rep.ok(f'{h.fq}: an atom that is not a reference is returned unchanged', h.loc(r))
+                continue
+            facts = facts_ex(ctx, h, r)
+            good = (f"{p_role} != '/'", True) in facts or (f"{p_role} == '/'", False) in facts
+            rep.add(f'{fi.fq}: the concept branch is never rewritten', h.loc(r), 'ok' if good else 'undecided',
+                    '' if good else f'`{norm(r)[:60]}` can run on the concept branch: a concept spelled like a variable would be renamed')
+            for f, pol in sorted(facts):
+                if any(m_ in f for m_ in ('.isalpha(', '.isalnum(', '.isidentifier(', '.startswith(', '.islower(', '.isupper(', '.isdigit(', 're.match(', 're.fullmatch(')) \
+                        and (p_atom in f or (unp and unp[0] in f)):
+                    rep.violation(f'{fi.fq}: every reference to a renamed variable is rewritten', h.loc(r),
+                                  f'the rewrite runs only when `{f}` is {pol}: a variable is any symbol, so a reference whose spelling fails this test keeps its old name')
+            parts = _concat_parts(r.value)
+            shape_ok = (len(parts) == 1 and isinstance(parts[0], ast.Subscript) and norm(parts[0].slice) == p_atom) or (
+                bool(unp) and len(parts) == 3 and isinstance(parts[0], ast.Subscript) and norm(parts[0].slice) == unp[0]
+                and norm(parts[1]) == unp[1] and norm(parts[2]) == unp[2])
+            uses_replace = any(isinstance(x, ast.Call) and isinstance(x.func, ast.Attribute) and x.func.attr == 'replace' for x in ast.walk(r.value))
+            key = f'{fi.fq}: a reference is rewritten as new name + its own alignment suffix'
+            if uses_replace:
+                rep.violation(key, h.loc(r), f'`{norm(r)[:70]}`: str.replace rewrites every occurrence of the old name, including inside the alignment suffix')
+            else:
+                rep.add(key, h.loc(r), 'ok' if shape_ok else 'undecided', norm(r.value)[:70])
+        rep.ok(f'{fi.fq}: target slot is the (possibly rewritten) target', fi.loc(comp), f'atoms go through {h.qualname}')
+    else:
+        rep.undecided(f'{fi.fq}: target slot is the (possibly rewritten) target', fi.loc(comp), norm(atomic_arm)[:60])
+    # the result
+    cname = None
+    par = ctx.repo.parent_map(fi.node).get(id(comp))
+    if isinstance(par, (ast.Assign, ast.AnnAssign)):
+        tg = par.targets[0] if isinstance(par, ast.Assign) else par.target
+        cname = norm(tg)
+    for r in [n for n in walk_local(fi.node) if isinstance(n, ast.Return) and n.value is not None]:
+        v = r.value
+        good = isinstance(v, ast.Tuple) and len(v.elts) == 2 and (norm(v.elts[1]) == cname or v.elts[1] is comp) and norm(v.elts[0]).endswith(f'[{v_var}]')
+        if isinstance(v, ast.Tuple) and len(v.elts) == 2 and norm(v.elts[1]) == v_br:
+            rep.violation(f'{fi.fq}: returns (variable, output branches)', fi.loc(r), f'`return {norm(v)}` hands back the input branch list')
+        else:
+            rep.add(f'{fi.fq}: returns (variable, output branches)', fi.loc(r), 'ok' if good else 'undecided', norm(v))
+    return True
 
 
 def _concat_parts(e: ast.AST) -> List[ast.AST]:
